@@ -44,9 +44,22 @@ type tcase struct {
 	// Publish(m1), nothing else running in between; after settling, m2 is published.
 	Re     int
 	ReMode int
+	// Resub > 0: node Resub-1 (a subscriber) releases its subscription and
+	// subscribes again before anything is published. ResubMode 0: the router
+	// settles (its sweep announces the unsubscription) between release and
+	// re-subscription; 1: both land in the same evaluation pass.
+	Resub     int
+	ResubMode int
 }
 
 func (c tcase) String() string {
+	if c.Resub > 0 {
+		mode := "release,settle,subscribe-again"
+		if c.ResubMode == 1 {
+			mode = "release+subscribe-again-in-one-pass"
+		}
+		return fmt.Sprintf("n=%d edges=%s subs=%s pub=%d msgs=%d node %d %s, then publish", c.N, edgeList(c.N, c.Edges), setStr(c.N, c.Subs), c.Pub, c.NPub, c.Resub-1, mode)
+	}
 	if c.Re > 0 {
 		p := pairs(c.N)[c.Re-1]
 		mode := "publish-m1-then-replace-stream"
@@ -218,6 +231,34 @@ func allReCases(maxN int) []tcase {
 	return cs
 }
 
+// allResubCases: every connected graph on 2..maxN nodes x every subscriber
+// subset x every subscriber that releases and re-subscribes x both modes x
+// every publisher; one message, links before subscriptions.
+func allResubCases(maxN int) []tcase {
+	var cs []tcase
+	for n := 2; n <= maxN; n++ {
+		np := len(pairs(n))
+		for em := uint(1); em < 1<<uint(np); em++ {
+			if !connected(n, em) {
+				continue
+			}
+			for sm := uint(1); sm < 1<<uint(n); sm++ {
+				for r := 0; r < n; r++ {
+					if sm&(1<<uint(r)) == 0 {
+						continue
+					}
+					for p := 0; p < n; p++ {
+						for mode := 0; mode < 2; mode++ {
+							cs = append(cs, tcase{N: n, Edges: em, Subs: sm, Pub: p, NPub: 1, Order: 0, Resub: r + 1, ResubMode: mode})
+						}
+					}
+				}
+			}
+		}
+	}
+	return cs
+}
+
 // ---- one run ----
 
 type event struct {
@@ -330,11 +371,18 @@ func runInBubble(c tcase, res *result) {
 			}
 		}
 	}
+	subHandles := make([]pubsub.Subscription, c.N)
+	var subscribeOne func(i int)
 	subscribe := func() {
 		for i := 0; i < c.N; i++ {
 			if c.Subs&(1<<uint(i)) == 0 {
 				continue
 			}
+			subscribeOne(i)
+		}
+	}
+	subscribeOne = func(i int) {
+		{
 			sub, err := nodes[i].AddSubscription(ctx, keys[i].Priv, chanID)
 			if err != nil {
 				evid.Fatal("AddSubscription: %v", err)
@@ -347,6 +395,7 @@ func runInBubble(c tcase, res *result) {
 				}
 				rec(event{"deliver", from, node, string(m.GetData())})
 			})
+			subHandles[i] = sub
 		}
 	}
 	synctest.Wait()
@@ -377,6 +426,15 @@ func runInBubble(c tcase, res *result) {
 		subscribe()
 		settle()
 		link()
+		settle()
+	}
+	if c.Resub > 0 {
+		r := c.Resub - 1
+		subHandles[r].Release()
+		if c.ResubMode == 0 {
+			settle()
+		}
+		subscribeOne(r)
 		settle()
 	}
 	msgs := []string{"m1", "m2"}[:c.NPub]
@@ -568,7 +626,12 @@ func TestC28(t *testing.T) {
 	if os.Getenv("VERIF_TIER") == "thorough" {
 		splitMaxN = 4
 	}
-	cs := allCases(maxN)
+	resubMaxN := 3
+	if os.Getenv("VERIF_TIER") == "thorough" {
+		resubMaxN = 4
+	}
+	resubCases := allResubCases(resubMaxN)
+	cs := append(allCases(maxN), resubCases...)
 	if sh := os.Getenv("C28_SHARD_OUT"); sh != "" {
 		// worker process: GOMAXPROCS=1, a share of the cases
 		var idx, of int
@@ -622,7 +685,7 @@ func TestC28(t *testing.T) {
 	}
 
 	run := evid.Start("C28", "exploration")
-	acc := enum.NewAcc(run, "every connected labelled graph on 2..N nodes x every subset of subscribed nodes x every publishing node x {1,2} messages published back to back x {links before subscriptions, subscriptions before links}; plus re-establishment cases: every connected graph on 2..M nodes x every edge whose stream is replaced (same peer/link tuple, both ends) x every subscriber subset x every publisher x {publish m1 then replace, replace then publish m1}, m2 published after settling; each case builds N real FloodSub routers joined by in-memory streams via AddPeerStream and is run to quiescence in a synctest bubble; a case is non-trivial if at least one node other than the publisher is subscribed and reachable through subscribed peers (some packet must cross a link); distinct by the full configuration tuple")
+	acc := enum.NewAcc(run, "every connected labelled graph on 2..N nodes x every subset of subscribed nodes x every publishing node x {1,2} messages published back to back x {links before subscriptions, subscriptions before links}; plus re-establishment cases: every connected graph on 2..M nodes x every edge whose stream is replaced (same peer/link tuple, both ends) x every subscriber subset x every publisher x {publish m1 then replace, replace then publish m1}, m2 published after settling; plus re-subscription cases: every connected graph on 2..R nodes x every subscriber subset x every subscriber that releases its subscription and subscribes again (with and without the router settling in between) x every publisher; each case builds N real FloodSub routers joined by in-memory streams via AddPeerStream and is run to quiescence in a synctest bubble; a case is non-trivial if at least one node other than the publisher is subscribed and reachable through subscribed peers (some packet must cross a link); distinct by the full configuration tuple")
 	workers := runtime.NumCPU()
 	if workers > 16 {
 		workers = 16
@@ -775,8 +838,8 @@ func TestC28(t *testing.T) {
 		n int
 	}
 	smaller := func(a, b tcase) bool {
-		ka := []int{a.N, popcount(a.Edges), a.NPub, popcount(a.Subs), a.Order, int(a.Edges), int(a.Subs), a.Pub, a.Re, a.ReMode}
-		kb := []int{b.N, popcount(b.Edges), b.NPub, popcount(b.Subs), b.Order, int(b.Edges), int(b.Subs), b.Pub, b.Re, b.ReMode}
+		ka := []int{a.N, popcount(a.Edges), a.NPub, popcount(a.Subs), a.Order, int(a.Edges), int(a.Subs), a.Pub, a.Re, a.ReMode, a.Resub, a.ResubMode}
+		kb := []int{b.N, popcount(b.Edges), b.NPub, popcount(b.Subs), b.Order, int(b.Edges), int(b.Subs), b.Pub, b.Re, b.ReMode, b.Resub, b.ResubMode}
 		for i := range ka {
 			if ka[i] != kb[i] {
 				return ka[i] < kb[i]
@@ -805,6 +868,9 @@ func TestC28(t *testing.T) {
 				outcome = "violation"
 			}
 			grp := fmt.Sprintf("n=%d", c.N)
+			if c.Resub > 0 {
+				grp = "re-subscribed " + grp
+			}
 			if c.Re > 0 {
 				grp = "re-established " + grp
 			}
@@ -856,6 +922,8 @@ func TestC28(t *testing.T) {
 	run.Cov["cases_total"] = len(cs) + len(reCases)
 	run.Cov["reestablishment_cases"] = len(reCases)
 	run.Cov["reestablishment_max_nodes"] = reMaxN
+	run.Cov["resubscription_cases"] = len(resubCases)
+	run.Cov["resubscription_max_nodes"] = resubMaxN
 	run.Cov["router_crashes"] = len(crashes)
 	run.Cov["publish_packets_on_wire"] = sends
 	run.Cov["handler_invocations"] = delivers
